@@ -153,17 +153,27 @@ impl MoveGen {
         for legals in &mut self.moves {
             legals.moves -= mask;
         }
+
+        // iteration stops at the first exhausted entry, so move those out of the way
+        self.set_mask(self.mask);
     }
 
     /// Never, ever, iterate this move
     pub fn remove_move(&mut self, chess_move: ChessMove) -> bool {
+        let mut found = false;
+
+        // a pawn that can also capture en passant has two entries
         for x in 0..self.moves.len() {
             if self.moves[x].src == chess_move.source {
                 self.moves[x].moves -= chess_move.dest;
-                return true;
+                found = true;
             }
         }
-        false
+
+        // iteration stops at the first exhausted entry, so move those out of the way
+        self.set_mask(self.mask);
+
+        found
     }
 
     pub fn set_mask(&mut self, mask: BitBoard) {
